@@ -501,6 +501,9 @@ func init() {
 		if err := c03StageLoop(c, append(append(append([][]byte{}, docs...), td...), xd...), append(append(append([]string{}, names...), tn...), xn...)); err != nil {
 			return err
 		}
+		if err := c03StageDomSub(c); err != nil {
+			return err
+		}
 		if err := c03StageRawLex(c); err != nil {
 			return err
 		}
